@@ -15,7 +15,7 @@ MANIFEST = {
             "enumerated fault/reuse/timeout histories + seeded programs; journals, outcomes and identifier functions are compared with "
             "the model inside Coq (vm_compute); the property's own statement is evaluated on every real run (direct oracle).",
     "note": "Trusted: Coq kernel + vm_compute, no axioms; harness/xarun stand-in server and coordinator stub; "
-            "two-phase timeout checker switched off in the harness; explicit transactions and connection reuse are listed findings.",
+            "free-running checker ticker switched off in the harness (single passes through a hook); explicit transactions and pinned-connection reuse are listed findings.",
     "technique": "Coq proof (induction over op lists, invariants) + differential correspondence of journals (vm_compute) + direct oracle",
 }
 PROP_FILE = "Props/P_C17.v"
@@ -61,6 +61,8 @@ def op_term(o):
         return "OLocal"
     if o["k"] == "retry":
         return "ORetry %d %s" % (o.get("g", 0), coq_bool(bool(o.get("slow"))))
+    if o["k"] == "check":
+        return "OCheck %s" % coq_bool(bool(o.get("expired")))
     if o["k"] == "retire":
         return "ORetire %d" % o["target"]
     if o["k"] == "p2":
@@ -71,6 +73,8 @@ def op_term(o):
 def out_term(op, r):
     if r["class"] == "skipped":
         return "OSkipped"
+    if op["k"] == "check":
+        return "OChk %s" % coq_list(["%d%%nat" % c for c in r.get("closed") or []])
     if op["k"] == "p2":
         return "OP2 %s" % coq_bool(bool(r.get("good")))
     return "OOk" if r["class"] == "ok" else ("OErrBad" if r.get("bad") else "OErr")
@@ -116,6 +120,11 @@ def fingerprint(r):
             "ops": [[o["class"], bool(o.get("bad")), bool(o.get("good"))] for o in r["ops"]]}
 
 
+def shape(fp):
+    """a fingerprint without the concrete identifiers: what a generated variant of a finding's replay must reproduce"""
+    return {"oracle": fp["oracle"], "journal": [[e[0], e[1], e[2], e[5]] for e in fp["journal"]], "ops": fp["ops"]}
+
+
 def replay_scenarios(chk, scs):
     p = chk.tmp("replay_in.json")
     json.dump(scs, open(p, "w"))
@@ -124,7 +133,7 @@ def replay_scenarios(chk, scs):
 
 
 def sizes(tier):
-    return (600, 200, 600) if tier == "quick" else (12000, 4000, 20000)
+    return (600, 200, 600) if tier == "quick" else (20000, 6000, 30000)
 
 
 def run(chk, only=None):
@@ -186,13 +195,14 @@ def run(chk, only=None):
         chk.violation("a proof obligation of C17 no longer checks", {"theorem": PROP_FILE, "coq_output": pr["out"][-1500:]}, False)
     # ---- finding stream: committed replays must still fail; generated variants outside listed predicates are violations
     if only is None:
-        allowed = {}
+        allowed, shapes = {}, {}
         for f in findings:
             p = os.path.join(vlib.VERIF, f["replay"])
             rj = json.load(open(p))
             rr = replay_scenarios(chk, rj["scenarios"])
             exp = rj.get("expected") or []
             allowed[f["pred"]] = {m for e in exp for m in e["oracle"]}
+            shapes[f["pred"]] = [shape(e) for e in exp]
             got = [fingerprint(r) for r in rr]
             if not any(r["oracle"] for r in rr):
                 print("STALE-FINDING: property=C17 %s no longer reproduces" % f["id"])
@@ -220,11 +230,10 @@ def run(chk, only=None):
             if not r["scenario"]["stream"].startswith("finding:"):
                 continue
             pred = r["scenario"]["stream"].split(":", 1)[1]
-            if r["oracle"] and pred in preds:
-                extra = [m for m in r["oracle"] if norm_msg(m) not in allowed.get(pred, set())]
-                if extra:
-                    chk.violation("C17 fails on the real code in a way finding %s does not record: %s" % (pred, "; ".join(extra[:3])),
-                                  slim(r), True)
+            if pred in preds and shape(fingerprint(r)) not in shapes.get(pred, []):
+                # a generated variant of a finding's history must do exactly what its replay is recorded to do
+                chk.violation("a variant of finding %s does not reproduce the recorded outcome: %s"
+                              % (pred, "; ".join(r["oracle"] or ["no oracle failure; journal/outcomes differ"])[:300]), slim(r), True)
             if r["oracle"] and pred not in preds:
                 chk.violation("C17 fails on the real code (%s): %s" % (pred, "; ".join(r["oracle"][:2])), slim(r), True)
     nontriv = [r for r in clean if any(e["k"] == "sql" and e["cmd"] == "START" for e in r["events"] or [])]
@@ -245,7 +254,7 @@ def run(chk, only=None):
                                              for r in nontriv]),
         "rule": "72 enumerated single-branch scenarios (every single fault position START/STMT/END/PREPARE/COMMIT/ROLLBACK, both refusal "
                 "kinds, commit/rollback, holder/stranger, server 5.7.30 and 8.0.30) + 54 enumerated pool-retirement / ErrBadConn / db.ExecContext-retry "
-                "histories + 150 enumerated reuse/timeout histories + 4 long-xid (IPv6) multi-branch histories (failed first "
+                "histories + 150 enumerated reuse/timeout histories + 4 long-xid (IPv6) multi-branch histories + 56 two-phase-timeout-checker histories (failed first "
                 "branch of every kind x second branch on the same pooled connection x phase-two order; timeouts) + %d seeded programs "
                 "(1-4 branches on fresh or pool-reused connections or through db.ExecContext with its retry, pool retirements, slow statements, fault error "
                 "kinds generic/ErrBadConn/context, interleaved phase two incl. rollback for failed-START "
@@ -267,7 +276,7 @@ def run(chk, only=None):
         "XA END(success) and the XA END(fail) that follows are not both made to fail (hypothesis of C17_legal and C17_failure; "
         "C17_accepted_legal has no such hypothesis)",
         "XA ROLLBACK of a never-started / already rolled-back branch answered XAER_NOTA is read as a no-op",
-        "two-phase timeout checker and the branch-status cache are not exercised; the branch timeout is driven through the verif hook (1 ns timeout, 2 ms statement)",
+        "the branch-status cache is not exercised; branch timeout and two-phase timeout checker are driven through verif hooks (1 ns / 1 h; single checker passes between ops, never concurrent with a statement)",
     ]
     return chk.finish()
 
